@@ -43,6 +43,23 @@ Theorem C08_no_partial_chunk_visible :
 Proof. exact store_crash_valid. Qed.
 Print Assumptions C08_no_partial_chunk_visible.
 
+(* StoreChunk returning nil means the object is there and complete: a writer whose program counter is
+   [PcDone None] -- reached only through the rename; a write that fails or is cut short ([AFail]) leads
+   through close and remove to [PcDone (Some EIO)] -- finds under its final name the complete object of
+   a writer of that same (id, format): its own, or the one a concurrent writer of the same chunk renamed
+   over it.  In every schedule, so also while other writers are mid-way or dead. *)
+Theorem C08_store_nil_implies_complete :
+  forall (base : path) (wd : nat -> wdata) (s0 : node),
+  (forall i j r, In r (wd_cands (wd i)) -> In r (wd_cands (wd j)) -> i = j) ->
+  forall (sched : list (nat * action)) (i : nat),
+  (forall i, wf_id (wd_id (wd i))) ->
+  let s := run (StoreCrash.step base wd) sched (init base wd s0) in
+  snd s i = PcDone None ->
+  exists j, wd_id (wd j) = wd_id (wd i) /\ wd_unc (wd j) = wd_unc (wd i) /\
+            stat (w_final base wd i) (fst s) = Some (EFile meta0 (wd_obj (wd j))).
+Proof. exact store_nil_complete_id. Qed.
+Print Assumptions C08_store_nil_implies_complete.
+
 (* ... and a later Prune that returns nil has removed every leftover temp file. *)
 Theorem C08_prune_removes_leftovers :
   forall (base : path) (wd : nat -> wdata) (s0 : node),
